@@ -12,16 +12,16 @@ META = {
         "rule": "Deterministic grid: every int/float/string value class x every null pattern x lengths at the bitmap byte "
                 "boundaries x transport (wire capnp, native struct, row API, client serialize/deserialize) x residency "
                 "(unflushed buffer, flushed partition, evicted+reloaded from disk, restarted) x mem_lz4, plus type-degradation "
-                "pairs (int/float/str/null first half then another type) and a seeded random fill. One evaluation = one "
+                "pairs (int/float/str/null first half then another type), the CSV load path (the same grid written to a text file and read by load_csv in chunks of 7 / 64 / 65536 rows; string columns declared always-string, columns with NULLs declared nullable; a float is what its shortest round-trip text parses to) and a seeded random fill. One evaluation = one "
                 "returned column compared cell by cell (row view and column view) with the supplied cells. A case counts as "
                 "distinct non-trivial per (kind, class, null pattern, length bucket, transport, config, stage, codec signature) "
                 "when it has at least one non-null cell and, unless the pattern is 'none', at least one NULL.",
-        "budget": {"quick": 90, "thorough": 1200},
+        "budget": {"quick": 90, "thorough": 450},
         "relfast": True,
         "floors": {
             "quick": {
-                "evaluations": 20000, "distinct": 3000,
-                "sets": {"codec_signatures": ["ToI64(U8)", "ToI64(U16)", "ToI64(U32)", "Add(U8)", "Add(U16)", "Add(U32)", "Delta(",
+                "evaluations": 20000, "distinct": 3000, "counters": {"csv_loads": 5},
+                "sets": {"repr_kinds": ["wire:", "struct:", "rowapi:", "serde:", "csv:"], "codec_signatures": ["ToI64(U8)", "ToI64(U16)", "ToI64(U32)", "Add(U8)", "Add(U16)", "Add(U32)", "Delta(",
                                               "Dict(U8)", "Dict(U16)", "StrUnpack", "StrHexUnpack", "Nullable", "LZ4", "Pco"]},
             },
         },
@@ -49,7 +49,7 @@ TOL = [
 META["C03"] = {
     "level": "exploration",
     "rule": "Tables with one column per encoding (u8/u16/u32 with and without offset, i64, delta, float, dictionary / packed / hex strings, nullable variants, columns absent from some partitions), 1-4 partitions, last batch optionally unflushed, some cases cold on disk. Predicates: col op const / const op col / col op col for the six comparison operators over int, float and string with constants below/at/inside/above the column range and outside the narrow encoding, IS [NOT] NULL, LIKE, regex, NOT and AND/OR trees of depth <= 3. One evaluation = SELECT id [,col] FROM t WHERE p compared as a sequence of ids with the three-valued reference evaluator. Distinct non-trivial = distinct (predicate label: operators, operand type pairs, constant position classes, nullability; codec signature of the first referenced column) whose reference answer is neither empty nor the whole table and on which engine and reference agree. Disagreements are shrunk to a minimal statement before being classified.",
-    "budget": {"quick": 100, "thorough": 1200},
+    "budget": {"quick": 100, "thorough": 450},
     "relfast": True,
     "floors": {"quick": {"evaluations": 3000, "distinct": 300, "counters": {"nontrivial_agree": 400}}},
     "assumptions": COMMON_ASSUMPTIONS + TOL,
@@ -64,7 +64,7 @@ MANIFEST_TEXT["C03"] = {
 META["C04"] = {
     "level": "exploration",
     "rule": "Tables with grouping keys of controlled cardinality (1, 2, 10, 255, 256, 300, >65 535; negative and wide ranges; nullable; strings of low/high cardinality; floats) and int/float value columns, 1-6 partitions whose key sets are equal / disjoint / interleaved, optional unflushed tail and cold disk reads. Statements: 0-3 grouping expressions (columns, c/10, c%7) + 1-3 aggregates out of COUNT/SUM/MIN/MAX/AVG, optional simple WHERE, optional ORDER BY over all exact select items + LIMIT. One evaluation = one statement compared as a multiset of groups (or key sequence with tie groups when ordered) with the reference group-by; T-FLOATSUM/T-AVG apply. Distinct non-trivial = distinct (keys, aggregates, clauses, group-count bucket, partition count, partition relation, grouping strategy read from the executed plan) with >= 2 groups on which engine and reference agree. Disagreements are shrunk, then classified by a decision list (all-NULL aggregate input, column absent from a partition, ORDER BY on groups, number and kind of keys).",
-    "budget": {"quick": 100, "thorough": 1200},
+    "budget": {"quick": 100, "thorough": 450},
     "relfast": True,
     "floors": {"quick": {"evaluations": 1500, "distinct": 150, "counters": {"multi_group_agree": 200, "groups_over_65535_agree": 1}}},
     "assumptions": COMMON_ASSUMPTIONS + TOL,
@@ -79,7 +79,7 @@ MANIFEST_TEXT["C04"] = {
 META["C07"] = {
     "level": "exploration",
     "rule": "Random histories (4-12 ops quick, up to 30 thorough) over {ingest(batch), force_flush, evict_cache, restart} on 1-2 disk-backed tables whose 3-8 columns are drawn from every C01 value class with NULL probabilities {0, .2, .6, 1} and columns withheld from every 2nd/3rd batch; partition_combine_factor in {0,1,2,4} so that compaction merges 1..k partitions at almost every flush, mem_lz4 on/off, sub-partition size {1 byte, 4 KiB, default}, tiny memory limit in some cases. At every maintenance step a probe battery (SELECT *, aggregate, filter, ORDER BY..LIMIT per table) must give identical answers immediately before and after, and SELECT * must equal the model after every op. One evaluation = one probe comparison. A step only counts as compaction if the catalogue (hook) shows partitions replaced, as eviction if bytes were evicted, as cold if a probe read from disk. Distinct non-trivial = distinct (what the step really did incl. merge arity, cold/warm, lz4, factor, sub-partition size, table count, two preceding ops).",
-    "budget": {"quick": 120, "thorough": 1200},
+    "budget": {"quick": 120, "thorough": 450},
     "floors": {"quick": {"evaluations": 20000, "distinct": 100, "counters": {"compactions": 300, "evictions_with_effect": 100, "cold_reads_after_step": 100}}},
     "assumptions": COMMON_ASSUMPTIONS + ["Restarts inside a history reopen immediately after drop (as the repository's own ingestion_test does)."],
 }
@@ -92,7 +92,7 @@ MANIFEST_TEXT["C07"] = {
 META["C08"] = {
     "level": "exploration",
     "rule": "Bounded-exhaustive histories: every word of length <= 5 (quick; <= 7 thorough) over the alphabet {ingest->A, ingest->B, ingest->A+B (one request, two tables), force_flush, restart} that contains an ingest, each on a fresh disk-backed database, always followed by a final restart; plus random longer histories with max_wal_files in {1,2,1000}, max_wal_size_bytes in {0,200,64MiB}, io_threads {1,4}, compaction threads {1,3}, combine factor {0,1,4,999} and quiescent restarts (so background flushes run on their own). Batches carry dense int/float/string, sparse nullable int and a column only some requests have; uid = request*2^20+row identifies every row. After every restart and at the end: SELECT * of each table == model (exactly once, in order), _meta_tables lists each table once, _meta_columns_<t> lists each column once. One evaluation = one table/catalogue comparison. Distinct non-trivial = distinct history words with >= 1 ingest and >= 1 restart.",
-    "budget": {"quick": 150, "thorough": 1500},
+    "budget": {"quick": 150, "thorough": 600},
     "exhaustive": {"quick": True, "thorough": False},
     "floors": {"quick": {"evaluations": 15000, "distinct": 3800}},
     "assumptions": COMMON_ASSUMPTIONS + ["Exhaustive part: restart = drop followed immediately by LocustDB::new (default WAL limits, so no background flush is pending); random part: restart waits for every thread of the old instance to exit (liveness hook)."],
@@ -107,7 +107,7 @@ MANIFEST_TEXT["C08"] = {
 META["C09"] = {
     "level": "fault_enumeration",
     "rule": "Crash model: effects reach the disk in program order, a crash keeps a prefix of the effect sequence, a temp file written but not yet synced may keep any prefix of its content; renames/removes are atomic. The fs-effect hook copies the database directory at every primitive effect boundary of FileBlobWriter (mkdir/create/write/sync/rename/remove) while short histories (3-8 ops over ingest->A, ingest->B, ingest->A+B, force_flush with combine factor 1/999/0/4, restart; io_threads 1/4) run: one crash image per boundary, plus 5 truncations of the temp file after each write effect. Every image (quick: an evenly spread subset of at most 60 exact images per history plus all truncations) is opened by a child process running the real recovery; oracle: open terminates (progress rule), content == model(acknowledged) or model(acknowledged + the one in-flight request, whole across its tables), no table listed twice, reopening again gives the same content, and for a sample a crash at effect 1/2 of the recovery followed by a reopen gives the same content. One evaluation = one child open judged. Distinct non-trivial = distinct (effect kind, file role wal/partition/meta, before/after, truncation class, during ingest/flush/recovery) on which recovery succeeded.",
-    "budget": {"quick": 200, "thorough": 1800},
+    "budget": {"quick": 200, "thorough": 600},
     "exhaustive": {"quick": False, "thorough": True},
     "shards": 16,
     "floors": {"quick": {"evaluations": 3000, "distinct": 25, "counters": {"crash_images_captured": 1500, "crashes_during_recovery": 10}}},
@@ -122,7 +122,7 @@ MANIFEST_TEXT["C09"] = {
 META["C10"] = {
     "level": "exploration",
     "rule": "(1) Deterministic schedule exploration: for every sync-point label of flush/compaction/load (hook) and occurrence k, a flush+compaction of a 2-table database (two prepared partitions + buffered rows per table) is run with a gate at (label,k): when the flushing thread arrives there, a query battery / a second ingestion + battery / evict_cache + battery is started from another thread and the flush is held until that operation finished or 400 ms passed; then a final quiescent battery. combine factor {1,999} x mem_lz4 (quick; 6 variants thorough). (2) Randomised stress: one writer per table (3 tables, 40 requests each quick), 4 queriers, 1 flusher looping force_flush, an evicter in every second run, tiny WAL limits, random 0.2-2 ms delays at 30% of all sync points; 64 runs quick. Every ingestion request carries uids request*2^20+row. Offline checker over the recorded history (call/return times from one monotonic clock): every answer must equal the answer on concat(requests 1..j) for some j with acked_before(call) <= j <= started_before(return) (uids, aggregate, absent column, partially present column, filter, ORDER BY..LIMIT variants), and observations must be prefix-ordered in real time. One evaluation = one observation judged. Distinct non-trivial = distinct (gate label#occurrence, injected op, factor, lz4, overlapped|serialised) that fired, plus distinct stress configurations.",
-    "budget": {"quick": 150, "thorough": 1800},
+    "budget": {"quick": 150, "thorough": 600},
     "floors": {"quick": {"evaluations": 20000, "distinct": 100, "counters": {"injected_overlapped": 80, "stress_observations": 10000, "stress_distinct_prefixes_observed": 500, "observations_inside_flush": 5000},
                          "sets": {"gate_points_hit": ["flush:after_freeze#1", "flush:table_batched#1", "flush:partitions_persisted#1", "compact:before_swap#1", "compact:after_swap#1", "compact:prepared#1", "flush:metastore_persisted#1", "flush:orphans_deleted#1"]}}},
     "assumptions": COMMON_ASSUMPTIONS + ["One writer thread per table, so the request order of a table is known; several tables collide on the global ingestion lock and on flushes.", "Interleavings inside a critical section that no sync point separates are reached only by the randomised stress."],
@@ -136,7 +136,7 @@ MANIFEST_TEXT["C10"] = {
 META["C13"] = {
     "level": "exploration",
     "rule": "Random histories (4-13 ops quick) over {ingest(batch with an arbitrary subset of a 19-name pool: case pairs a/A, UPPER/upper, non-ASCII, names of 75 bytes differing in the last byte, names sorting before/after all others, column_name / column_names / timestamp / name, a name with a space), force_flush, restart} on up to three tables (incl. the case pair t1/T1), combine factor {1,0,4} and sub-partition size {1 byte, 200, default} so that compaction and multi-file partitions carry the columns. Checked after (almost) every op - after a restart only sometimes, so that ingestion hits the lazily initialised name set first: SELECT * has exactly the ever-ingested column names, each once, with every cell equal to the model (NULL where a batch did not mention the column); _meta_tables lists every table once; _meta_columns_<t> lists every column once and nothing else; search_column_names agrees. One evaluation = one table / catalogue / search comparison.",
-    "budget": {"quick": 120, "thorough": 1200},
+    "budget": {"quick": 120, "thorough": 450},
     "floors": {"quick": {"evaluations": 15000, "distinct": 400, "counters": {"new_name_first_seen_after_restart_before_any_query": 300, "flushes": 500, "restarts": 300}}},
     "assumptions": COMMON_ASSUMPTIONS,
 }
@@ -149,7 +149,7 @@ MANIFEST_TEXT["C13"] = {
 META["C18"] = {
     "level": "exploration",
     "rule": "Histories of 10-40 ops (quick; up to 200 thorough) over {ingest into one of 3-4 tables (one has a name that needs sanitising), force_flush} with combine factor {0,1,4,999}, sub-partition size {1 byte, 4 KiB, default}, io_threads {1,4}, compaction threads {1,3}. At every quiescent point (flush returned, nothing in flight, metrics logger off): recursive listing of the database directory == {meta} + {tables/<sanitised table>/<id>_<key>.part for every (partition, sub-partition) of the catalogue hook}; accounted WAL size == 0; conservation: files renamed into place minus files removed according to the fs-effect log == listing. Plus 8 runs where max_wal_size_bytes in {0,100,1000} holds ingestion back until the background flush has run (all requests must complete). One evaluation = one of these comparisons.",
-    "budget": {"quick": 120, "thorough": 1200},
+    "budget": {"quick": 120, "thorough": 450},
     "floors": {"quick": {"evaluations": 8000, "distinct": 100, "counters": {"ingests_completed_under_wal_limit": 40, "ingests_that_had_to_wait_for_a_flush": 4}}},
     "assumptions": COMMON_ASSUMPTIONS + ["Quiescence = force_flush returned and the single client issued nothing else."],
 }
@@ -163,7 +163,7 @@ MANIFEST_TEXT["C18"] = {
 META["C14"] = {
     "level": "fault_enumeration",
     "rule": "(1) Round trips: partition files with 6 columns each drawn from every value class x null pattern x length {1,8,9,65,300,1500} (built with the engine's own ColumnBuffer through the hook): PartitionSegment::serialize -> VersionedChecksummedBlobWriter::store -> load -> deserialize must give identical name, len, range, codec ops, section kinds and section contents, and the stand-alone decoder must return the supplied cells; catalogues with 0-4 tables (hostile names), 1-4 partitions, 1-4 sub-partitions and cursors up to u64::MAX-1 through MetaStore serialize/deserialize; WAL segments for every ColumnData variant. (2) Fault enumeration on files written by a real database (one WAL segment, one partition file, the catalogue): EVERY single-bit flip, EVERY truncation length, suffixes of 1/8/4096 bytes and the empty file must be rejected by load() (never Ok with a different payload). (3) End to end for a sample of faults per file kind (bit flip, truncation, suffix, a valid file of another kind): a child process opens the directory; outcome must be rejection (open fails / blocks after a recorded panic / query error) or content identical to the uncorrupted database. One evaluation = one load/open judged. Distinct non-trivial = distinct codec signature x section layout round-tripped, catalogue shapes, WAL classes, fault classes.",
-    "budget": {"quick": 100, "thorough": 900},
+    "budget": {"quick": 100, "thorough": 450},
     "exhaustive": {"quick": True, "thorough": True},
     "floors": {"quick": {"evaluations": 9000, "distinct": 600, "counters": {"rejected:wal:bitflip:payload": 500, "rejected:partition:bitflip:payload": 500, "rejected:meta:bitflip:payload": 500, "rejected:wal:truncation": 100, "rejected:partition:truncation": 100, "rejected:meta:truncation": 100},
                          "sets": {"codec_signatures_roundtripped": ["Dict(U8)", "StrUnpack", "StrHexUnpack", "Delta(", "Add(U8)", "ToI64(U16)", "Nullable", "LZ4", "Pco"]}}},
@@ -192,7 +192,7 @@ MANIFEST_TEXT["C16"] = {
 META["C12"] = {
     "level": "exploration",
     "rule": "Query strings of three kinds run against a 3-partition table (one partition still in the open buffer) with every column kind: (a) 90 hand-listed constructs the SQL parser accepts but the engine does not, or that sit on edges (JOIN, GROUP BY, HAVING, DISTINCT, subquery, IN, BETWEEN, CASE, CAST, UNION, window functions, several statements, non-SELECT, LIMIT/OFFSET that are fractional / beyond u64 / beyond the table / without LIMIT, unknown table, unknown column, aggregates of wrong arity or type, constants as select items, duplicate aliases, comments, empty input, NUL, unterminated quotes); (b) grammar-generated statements of the supported subset with random nesting, three quoting styles, aliases, ten numeric literal forms (negative, leading zeros, fractional, exponent, > u64, .5, 5.), WHERE trees, ORDER BY, LIMIT/OFFSET around the table length, and grouped statements; (c) 1-3 byte-level edits (delete, duplicate, replace, insert from an alphabet with quotes/operators/non-ASCII, splice with another statement) of four valid statements. Oracle: the call returns (panic monitor at the caller, progress monitor); Ok answers are validated structurally: colnames vs columns (count, order, names), aliases used, equal column lengths, row view == column view cell by cell (NULL == in-band marker), rows <= LIMIT, unknown table is an error, unknown column all NULL. One evaluation = one string. Distinct non-trivial = distinct (kind/construct, outcome class).",
-    "budget": {"quick": 90, "thorough": 900},
+    "budget": {"quick": 90, "thorough": 450},
     "floors": {"quick": {"evaluations": 5000, "distinct": 60, "counters": {"answers_ok": 800, "errors:ParseError": 500}}},
     "assumptions": COMMON_ASSUMPTIONS + ["Only the envelope is judged here; values are C03-C06's business. A lost answer (Canceled) is reported through the panic monitor with the panic site."],
 }
@@ -206,7 +206,7 @@ MANIFEST_TEXT["C12"] = {
 META["C11"] = {
     "level": "exploration",
     "rule": "Sequences of 30 (quick) / 60 requests against a database with 1/2/4/8 workers, memory-only or on disk, holding a two-partition table with one column per encoding plus a single-partition canary table: each step is a valid query or a failing request (108 requests: unparsable SQL, type errors, integer overflow, division by zero, every unsupported construct of the C12 list, unknown table, LIMIT/OFFSET beyond the table, aggregates over nothing, wrong arity, bad regex), issued from 1..8 client threads at once. After EVERY failing request: the canary query must return its known answer; every third time a worker census (as many single-partition queries as there are workers are held simultaneously at the query:before_partition sync point - possible iff that many workers are alive); with probability 0.3 an ingestion + force_flush + table_stats + mem_tree must return; at the end all acknowledged rows must be present. Liveness = the guard's progress rule (no CPU progress for 8 s while a call is pending, or a pending call after a database thread panicked). A request that kills a worker is reported by the panic monitor with its site (and the pool is restored with LocustDB::recover so the sequence continues). One evaluation = one request or follow-up judged. Distinct non-trivial = distinct (worker count, client count, failing request) after which a full census succeeded.",
-    "budget": {"quick": 100, "thorough": 1200},
+    "budget": {"quick": 100, "thorough": 450},
     "floors": {"quick": {"evaluations": 3000, "distinct": 150, "counters": {"failing_requests": 600, "censuses": 200, "flushes_after_failing_request": 150}}},
     "assumptions": COMMON_ASSUMPTIONS + ["'Always returns' is restated as bounded progress; a livelock that keeps burning CPU without any recorded panic would be reported inconclusive, not violated."],
 }
@@ -219,7 +219,7 @@ MANIFEST_TEXT["C11"] = {
 META["C15"] = {
     "level": "exploration",
     "rule": "Per case five table names out of a hostile list (case triple plain/Plain/PLAIN, '.', '..', '../escape', '../../escape2', 'a/b', '/abs', dotted, leading dots/dash, non-ASCII, spaces, 300-byte names differing in the last byte, ';', backslash) each receive two batches whose columns are subsets of the C13 name pool plus 8 random names (ASCII/upper/non-ASCII/spaces/dots/slashes), each batch flushed, sub-partition size limit in {1 byte (one column per file), 120, 4096, default}; then a quiescent restart. Every stored column is then read alone on the cold instance (a further restart before 12% of the probes) and must equal the model; never-stored neighbours of stored names (name + '_', name minus last char, upper-cased, names sorting before / after everything) must read all NULL; the number of directories under tables/ must equal the number of tables (user + catalogue); nothing may exist outside <sandbox>/db. Direct lane through the hook wrappers: sanitize_table_name on ~11 000 names (no separator, no leading dot, <= 255 bytes, injective on the observed inputs) and subpartition()/subpartition_key routing of every stored column to the file that contains it for random column sets and size limits. One evaluation = one column read / name / routing judged.",
-    "budget": {"quick": 120, "thorough": 900},
+    "budget": {"quick": 120, "thorough": 450},
     "floors": {"quick": {"evaluations": 10000, "distinct": 60, "counters": {"cold_column_reads": 1000, "directory_injectivity_checks": 20, "distinct_names_sanitised": 3000}}},
     "assumptions": COMMON_ASSUMPTIONS + ["Names containing a double quote or backslash are ingested but not queried (they cannot be written as a quoted SQL identifier)."],
 }
@@ -232,7 +232,7 @@ MANIFEST_TEXT["C15"] = {
 META["C17"] = {
     "level": "exploration",
     "rule": "An in-process HTTP server (server::run on a free local port) and the embedded API share one database. Per case: three batches of a table with one column per encoding are sent through /insert_bin as capnp wire messages on a pool of 1/2/8 keep-alive connections (plain std::net::TcpStream HTTP/1.1 client, no code of the system under test), interleaved with queries and a flush; then 13 queries covering result kinds Int, Float, String, Null (unknown column), Mixed (nullable int / float / string), ints beyond 2^53, aggregates, ORDER BY/LIMIT, SELECT * are each answered by /query (rows JSON), /query_cols (columns JSON), /multi_query_cols as JSON, as binary, as binary with XOR float compression and as binary with XOR + a mantissa out of {0,3,10,23,52} + one full-precision column, and compared cell by cell with embedded run_query on the same database (JSON: integers exact, floats within 4e-16 relative because the client-side JSON parser is not exactly round-tripping, non-finite -> null; binary: bit-exact, NULL = reserved NaN, reduced mantissa keeps sign/exponent/leading bits). 7 failing queries x 3 endpoints must be answered with a 4xx/5xx status and the next request on the same connection pool must succeed. One evaluation = one HTTP answer judged.",
-    "budget": {"quick": 100, "thorough": 900},
+    "budget": {"quick": 100, "thorough": 450},
     "floors": {"quick": {"evaluations": 3000, "distinct": 60, "counters": {"failing_queries_answered_with_error_status": 300, "inserts_ok": 60},
                          "sets": {"embedded_column_kinds_compared": ["Int", "Float", "String", "Null", "Mixed"]}}},
     "assumptions": COMMON_ASSUMPTIONS + ["The embedded answer is taken immediately after the HTTP answer on a quiescent database (no concurrent writer during a comparison)."],
@@ -247,7 +247,7 @@ MANIFEST_TEXT["C17"] = {
 META["C05"] = {
     "level": "exploration",
     "rule": "Tables with sort-key columns of every kind (u8, nullable u8, offset, negative offset, u16, full i64, nullable i64, heavy ties, constant, float, nullable float, dictionary / nullable / high-cardinality / hex strings), 40-2600 rows in 1-5 partitions of unequal length (optionally unflushed tail, cold disk). Statements SELECT id[, keys] FROM t [WHERE p] ORDER BY k1 [DESC][, k2, k3] LIMIT n OFFSET m with 0-3 keys (columns and c/10 expressions, every ASC/DESC mix) and n, m drawn from {0,1,2, L/2-1, L/2, L/2+1, L-1, L, L+1, N-1, N, N+1, N+2} (L = longest partition, N = table), plus LIMIT/OFFSET without ORDER BY (ingestion order). Oracle: result length = min(n, max(0, N-m)); the key tuple at every position equals the reference key sequence (unique even with ties); every returned row is an unused row of the table carrying exactly that key tuple (ties in any order, no duplicates). Distinct non-trivial = distinct (key kinds + directions, clauses, limit/offset position classes, partition count, sort operators seen in the executed plan) with more than one candidate row. Disagreements are shrunk and classified.",
-    "budget": {"quick": 100, "thorough": 900},
+    "budget": {"quick": 100, "thorough": 450},
     "relfast": True,
     "floors": {"quick": {"evaluations": 2500, "distinct": 500, "counters": {"nontrivial_agree": 1000}, "sets": {"sort_paths": ["top_n", "sort_by"]}}},
     "assumptions": COMMON_ASSUMPTIONS + TOL,
@@ -261,7 +261,7 @@ MANIFEST_TEXT["C05"] = {
 META["C06"] = {
     "level": "exploration",
     "rule": "Integer columns in every narrow encoding (u8, nullable u8, positive and negative offset, u16, u32, small mixed sign) plus raw-i64 columns holding the edge values {0, +-1, 2, 255, 256, 65535, 65536, 2^32-1, 2^32, 2^32+1, i64::MIN, i64::MIN+1, 2^63-2, +-2^62, 3037000499, 3037000500}, a zero-rich divisor column and a strictly positive one; 30-400 rows in 1-4 partitions. Statements: SELECT id, e FROM t with expression trees of depth <= 3 over {+,-,*,/,%}, columns and edge constants; and SUM over three layouts (overflow inside one partition, only when partial sums of >= 2 partitions merge, transiently although the total fits) with and without grouping. Oracle (i128 reference): if any row overflows i64 or divides by zero the query must NOT return a result (T-OVF); otherwise every cell must be exact, NULL operands give NULL; a transient SUM overflow may return the exact total or fail, never another number. Distinct non-trivial = distinct (expression shape, must_fail | must_be_exact).",
-    "budget": {"quick": 100, "thorough": 900},
+    "budget": {"quick": 100, "thorough": 450},
     "relfast": True,
     "floors": {"quick": {"evaluations": 3000, "distinct": 400, "counters": {"agree:must_fail": 500, "agree:must_be_exact": 500}}},
     "assumptions": COMMON_ASSUMPTIONS + TOL + ["A spurious Overflow error (e.g. (i64::MIN+1) / -1) is an error value and makes no claim: the property allows the query to fail."],
@@ -275,7 +275,7 @@ MANIFEST_TEXT["C06"] = {
 META["C02"] = {
     "level": "exploration",
     "rule": "Per case one logical table (one column per encoding incl. nullable and partially absent columns, 90 / 300 / 1400 rows) is realised as a baseline (one unflushed batch, memory only, 1 thread) and k=4 (quick) / 12 other layouts drawn from: 1-6 batches at random cut points, flush after a random subset, partition_combine_factor {0,1,4,999}, mem_lz4 on/off, max_partition_size_bytes {1,64,4096,default}, batch_size {8,16,64,1024}, threads {1,2,8}, memory / disk / evicted / restarted-and-cold (each option value at least once per case family). A battery of 40 statements per case (plain select, WHERE trees, single-key and group-less aggregates, ORDER BY..LIMIT/OFFSET, integer arithmetic) runs on every layout. Oracle: each answer equals the reference answer (with shrinking/diagnosis as in C03-C06) and equals the baseline's answer (multiset for unordered groups, float sums within 1e-9 relative); where the reference makes no claim the pairwise comparison alone decides. Layout coverage is measured from public observations (partition count, file count, cold reads). One evaluation = one answer or pair judged. Distinct non-trivial = distinct (statement family, partition count, disk, factor, batch size, threads) pairs that agreed with the baseline.",
-    "budget": {"quick": 120, "thorough": 1200},
+    "budget": {"quick": 120, "thorough": 450},
     "relfast": True,
     "floors": {"quick": {"evaluations": 6000, "distinct": 250, "counters": {"pairs_equal": 2500, "cold_queries": 50},
                          "sets": {"option_values": ["factor=0", "factor=1", "factor=4", "factor=999", "subpart=1", "subpart=64", "subpart=4096", "batch=8", "batch=16", "batch=64", "batch=1024", "threads=1", "threads=2", "threads=8"]}}},
@@ -287,3 +287,14 @@ MANIFEST_TEXT["C02"] = {
     "level_note": "Realisations and statements are seeded samples; every option value named in the property is covered per run (coverage floor).",
     "technique": "runtime metamorphic monitor (pairwise equality across physical realisations) + differential comparison with a reference evaluator",
 }
+
+
+# AddressSanitizer lane (thorough tier): the same workload generators run once more on a build of /repo + harness with
+# -Zsanitizer=address (pinned nightly, target x86_64-unknown-linux-gnu). Chosen where the workload reaches the engine's
+# unsafe code: codecs / packed strings (C01, C07, C16), vectorised operators and the lifetime-erased scratchpad / query
+# task (C02-C06, C12), and columns dropped under running queries (C10, C11).
+for _p in ("C01", "C02", "C03", "C04", "C05", "C06", "C07", "C10", "C11", "C12", "C16"):
+    META[_p]["asan"] = True
+    MANIFEST_TEXT[_p]["technique"] += "; thorough tier adds an AddressSanitizer build of the same workload (self-tested, report = violation)"
+
+META["C17"]["floors"]["quick"].setdefault("sets", {})["full_precision_column_kinds"] = ["dense_float", "nullable_float"]
